@@ -37,7 +37,16 @@ enum Tx {
 }
 enum Rx {
   S(TopicReceiver<K, T>),
-  A(AsyncTopicReceiver<K, T>),
+  /// boxed so that a pending `recv()` future (kept in `MRx::pending`) can borrow it across steps
+  A(Box<AsyncTopicReceiver<K, T>>),
+}
+
+/// A `recv()` future that returned Pending and is kept across steps, with its counting waker.
+struct PendingRecv {
+  fut: std::pin::Pin<Box<dyn std::future::Future<Output = Result<(K, T), RecvError>>>>,
+  flag: Arc<Flag>,
+  seen: u64,
+  polls: u32,
 }
 
 struct MTx {
@@ -45,6 +54,8 @@ struct MTx {
   closed: bool,
 }
 struct MRx {
+  /// declared before `h`: a pending future borrows the boxed receiver and must go first
+  pending: Option<PendingRecv>,
   h: Option<Rx>,
   /// cloned after every sender handle was gone: open or closed is unspecified until closed
   unspecified: bool,
@@ -68,10 +79,10 @@ fn run_seq(cap: usize, steps: usize, rng: &mut Rng) -> (Vec<Finding>, Vec<String
     (Tx::S(t), Rx::S(r))
   } else {
     let (t, r) = channel_async::<K, T>(cap);
-    (Tx::A(t), Rx::A(r))
+    (Tx::A(t), Rx::A(Box::new(r)))
   };
   let mut txs = vec![MTx { h: Some(tx), closed: false }];
-  let mut rxs = vec![MRx { h: Some(rx), unspecified: false, closed: false, subs: BTreeSet::new(), mailbox: VecDeque::new(), saw_disconnected: false }];
+  let mut rxs = vec![MRx { pending: None, h: Some(rx), unspecified: false, closed: false, subs: BTreeSet::new(), mailbox: VecDeque::new(), saw_disconnected: false }];
   let mut next_val: u64 = 1;
   let mut omitted = 0u64;
   let mut delivered = 0u64;
@@ -82,11 +93,102 @@ fn run_seq(cap: usize, steps: usize, rng: &mut Rng) -> (Vec<Finding>, Vec<String
   }
   let live_senders = |txs: &Vec<MTx>| txs.iter().filter(|t| t.h.is_some() && !t.closed).count();
   let live_receivers = |rxs: &Vec<MRx>| rxs.iter().filter(|r| r.h.is_some() && !r.closed).count();
+  let mut pending_seen = false;
+  // judges one receive outcome of receiver `$i` against the model
+  macro_rules! judge {
+    ($i:expr, $got:expr) => {{
+      let i = $i;
+      let got: Result<(K, T), TryRecvError> = $got;
+      let all_gone = live_senders(&txs) == 0;
+      let rx = &mut rxs[i];
+      if rx.closed && rx.unspecified {
+        match &got {
+          Ok(_) => fail!("phantom-or-duplicate-message", "rx{} (cloned after all senders were gone) obtained {:?}", i, got),
+          Err(TryRecvError::Empty) => fail!("no-disconnected-after-senders-gone", "rx{} was cloned after every sender handle was closed/dropped but reports Empty instead of Disconnected", i),
+          Err(TryRecvError::Disconnected) => {}
+        }
+      } else if rx.closed {
+        // a closed handle rejects: any error is accepted, a value is not
+        if got.is_ok() {
+          fail!("closed-receiver-still-receives", "receiver rx{} returned a message after its own close() had returned Ok", i);
+        }
+      } else {
+        let expect = if got.is_ok() || rx.pending.is_none() { rx.mailbox.pop_front() } else { rx.mailbox.front().copied() };
+        match (expect, got) {
+          (Some(e), Ok(g)) => {
+            if e != g {
+              let in_subs = rx.subs.contains(&g.0);
+              fail!(
+                if !in_subs { "message-of-unsubscribed-topic" } else { "wrong-or-reordered-message" },
+                "rx{} expected {:?} but obtained {:?}",
+                i, e, g
+              );
+            }
+            if rx.saw_disconnected {
+              fail!("value-after-disconnected", "rx{} obtained {:?} after it had observed Disconnected", i, g);
+            }
+          }
+          (Some(e), Err(err)) => fail!(
+            if matches!(err, TryRecvError::Disconnected) { "disconnected-before-drained" } else { "message-lost" },
+            "rx{} should obtain {:?} (published while subscribed, mailbox had room) but got {:?}",
+            i, e, err
+          ),
+          (None, Ok(g)) => {
+            let in_subs = rx.subs.contains(&g.0);
+            fail!(if !in_subs { "message-of-unsubscribed-topic" } else { "phantom-or-duplicate-message" }, "rx{} obtained {:?} with an empty model mailbox", i, g);
+          }
+          (None, Err(err)) => match (err, all_gone) {
+            (TryRecvError::Disconnected, false) => fail!("premature-disconnected", "rx{} observed Disconnected while a sender handle is still open", i),
+            (TryRecvError::Empty, true) => fail!("no-disconnected-after-senders-gone", "rx{} (subscriptions {:?}) got Empty although every sender handle is closed/dropped and its mailbox is drained", i, rx.subs),
+            (TryRecvError::Disconnected, true) => rx.saw_disconnected = true,
+            _ => {}
+          },
+        }
+      }
+    }};
+  }
+  // quiescence: a kept future whose waker has not fired is polled with a fresh waker; Ready proves a lost wake
+  macro_rules! quiesce {
+    () => {{
+      for i in 0..rxs.len() {
+        let idle = match rxs[i].pending.as_ref() {
+          Some(p) => p.flag.count() == p.seen,
+          None => false,
+        };
+        if !idle || !f.is_empty() {
+          continue;
+        }
+        let mut p = rxs[i].pending.take().unwrap();
+        let fresh = Flag::new();
+        p.polls += 1;
+        match poll_once(p.fut.as_mut(), &fresh) {
+          Poll::Ready(r) => {
+            drop(p);
+            let got = r.map_err(|_| TryRecvError::Disconnected);
+            trace.push(format!("quiescence: spontaneous re-poll of rx{}'s pending recv -> {:?}", i, got));
+            fail!("lost-wake-recv", "a pending recv() of rx{} completed with {:?} on a spontaneous re-poll: it had become able to complete but the waker of its last poll was never invoked", i, got);
+            judge!(i, got);
+          }
+          Poll::Pending => {
+            p.seen = fresh.count();
+            p.flag = fresh;
+            rxs[i].pending = Some(p);
+          }
+        }
+      }
+    }};
+  }
   for _ in 0..steps {
     if !f.is_empty() {
       break;
     }
-    match rng.weighted(&[14, 10, 6, 4, 3, 3, 2, 2, 2, 2, 2]) {
+    if rng.chance(1, 2) {
+      quiesce!();
+      if !f.is_empty() {
+        break;
+      }
+    }
+    match rng.weighted(&[14, 10, 6, 4, 3, 3, 2, 2, 2, 2, 2, 6]) {
       // publish
       0 => {
         let cands: Vec<usize> = (0..txs.len()).filter(|&i| txs[i].h.is_some()).collect();
@@ -125,82 +227,82 @@ fn run_seq(cap: usize, steps: usize, rng: &mut Rng) -> (Vec<Finding>, Vec<String
           }
         }
       }
-      // receive (try_recv or one poll of recv())
+      // receive (try_recv, or a poll of recv(); a Pending recv() future is sometimes kept across steps)
       1 => {
-        let cands: Vec<usize> = (0..rxs.len()).filter(|&i| rxs[i].h.is_some()).collect();
+        let cands: Vec<usize> = (0..rxs.len()).filter(|&i| rxs[i].h.is_some() && rxs[i].pending.is_none()).collect();
         if cands.is_empty() {
           continue;
         }
         let i = cands[rng.below(cands.len() as u64) as usize];
         let use_poll = rng.chance(1, 3);
+        let keep = rng.chance(2, 3);
+        let mut kept = false;
         let got: Result<(K, T), TryRecvError> = match rxs[i].h.as_ref().unwrap() {
           Rx::S(h) => h.try_recv(),
           Rx::A(h) => {
             if use_poll {
               let flag = Flag::new();
-              let mut fut = Box::pin(h.recv());
+              // SAFETY: the receiver lives in a Box owned by `rxs[i].h`; the future is stored in
+              // `rxs[i].pending` (declared before `h`) and is dropped before the receiver is closed,
+              // converted or dropped.
+              let hp: *const AsyncTopicReceiver<K, T> = &**h;
+              let hr: &'static AsyncTopicReceiver<K, T> = unsafe { &*hp };
+              let mut fut: std::pin::Pin<Box<dyn std::future::Future<Output = Result<(K, T), RecvError>>>> = Box::pin(hr.recv());
               match poll_once(fut.as_mut(), &flag) {
                 Poll::Ready(Ok(v)) => Ok(v),
                 Poll::Ready(Err(_)) => Err(TryRecvError::Disconnected),
-                Poll::Pending => Err(TryRecvError::Empty),
+                Poll::Pending => {
+                  if keep && !rxs[i].closed {
+                    let seen = flag.count();
+                    rxs[i].pending = Some(PendingRecv { fut, flag, seen, polls: 1 });
+                    kept = true;
+                  }
+                  Err(TryRecvError::Empty)
+                }
               }
             } else {
               h.try_recv()
             }
           }
         };
-        trace.push(format!("rx{}.{} -> {:?}", i, if use_poll { "recv-poll" } else { "try_recv" }, got));
-        let rx = &mut rxs[i];
-        if rx.closed && rx.unspecified {
-          // cloned after every sender handle was gone (empty mailbox): whether the library counts it as
-          // open or closed, there is nothing to receive and nobody left to send: Disconnected, not Empty
-          match &got {
-            Ok(_) => fail!("phantom-or-duplicate-message", "rx{} (cloned after all senders were gone) obtained {:?}", i, got),
-            Err(TryRecvError::Empty) => fail!("no-disconnected-after-senders-gone", "rx{} was cloned after every sender handle was closed/dropped but reports Empty instead of Disconnected", i),
-            Err(TryRecvError::Disconnected) => {}
-          }
+        trace.push(format!("rx{}.{} -> {:?}{}", i, if use_poll { "recv-poll" } else { "try_recv" }, got, if kept { " (future kept pending)" } else { "" }));
+        pending_seen |= kept;
+        judge!(i, got);
+      }
+      // drive a kept recv() future: poll it if its waker fired, re-poll it with a new waker, or drop it
+      11 => {
+        let cands: Vec<usize> = (0..rxs.len()).filter(|&i| rxs[i].pending.is_some()).collect();
+        if cands.is_empty() {
           continue;
         }
-        if rx.closed {
-          // a closed handle rejects: any error is accepted, a value is not
-          if got.is_ok() {
-            fail!("closed-receiver-still-receives", "receiver rx{} returned a message after its own close() had returned Ok", i);
+        let i = cands[rng.below(cands.len() as u64) as usize];
+        let woken = {
+          let p = rxs[i].pending.as_ref().unwrap();
+          p.flag.count() > p.seen
+        };
+        match rng.below(4) {
+          0 => {
+            rxs[i].pending = None;
+            trace.push(format!("drop pending recv of rx{} (woken={})", i, woken));
           }
-          continue;
-        }
-        let expect = rx.mailbox.pop_front();
-        match (expect, got) {
-          (Some(e), Ok(g)) => {
-            if e != g {
-              let in_subs = rx.subs.contains(&g.0);
-              fail!(
-                if !in_subs { "message-of-unsubscribed-topic" } else { "wrong-or-reordered-message" },
-                "rx{} expected {:?} but obtained {:?}",
-                i, e, g
-              );
-            }
-            if rx.saw_disconnected {
-              fail!("value-after-disconnected", "rx{} obtained {:?} after it had observed Disconnected", i, g);
-            }
-          }
-          (Some(e), Err(err)) => fail!(
-            if matches!(err, TryRecvError::Disconnected) { "disconnected-before-drained" } else { "message-lost" },
-            "rx{} should obtain {:?} (published while subscribed, mailbox had room) but got {:?}",
-            i, e, err
-          ),
-          (None, Ok(g)) => {
-            let in_subs = rx.subs.contains(&g.0);
-            fail!(if !in_subs { "message-of-unsubscribed-topic" } else { "phantom-or-duplicate-message" }, "rx{} obtained {:?} with an empty model mailbox", i, g);
-          }
-          (None, Err(err)) => {
-            let all_gone = live_senders(&txs) == 0;
-            match (err, all_gone) {
-              (TryRecvError::Disconnected, false) => fail!("premature-disconnected", "rx{} observed Disconnected while a sender handle is still open", i),
-              (TryRecvError::Empty, true) => fail!("no-disconnected-after-senders-gone", "rx{} (subscriptions {:?}) got Empty although every sender handle is closed/dropped and its mailbox is drained", i, rx.subs),
-              (TryRecvError::Disconnected, true) => rx.saw_disconnected = true,
-              _ => {}
+          _ if woken => {
+            let mut p = rxs[i].pending.take().unwrap();
+            p.seen = p.flag.count();
+            p.polls += 1;
+            match poll_once(p.fut.as_mut(), &p.flag) {
+              Poll::Ready(r) => {
+                drop(p);
+                let got = r.map_err(|_| TryRecvError::Disconnected);
+                trace.push(format!("rx{} woken recv re-polled -> {:?}", i, got));
+                judge!(i, got);
+              }
+              Poll::Pending => {
+                trace.push(format!("rx{} woken recv re-polled -> Pending", i));
+                rxs[i].pending = Some(p);
+              }
             }
           }
+          _ => {}
         }
       }
       // subscribe
@@ -245,14 +347,14 @@ fn run_seq(cap: usize, steps: usize, rng: &mut Rng) -> (Vec<Finding>, Vec<String
         let i = cands[rng.below(cands.len() as u64) as usize];
         let c = match rxs[i].h.as_ref().unwrap() {
           Rx::S(h) => Rx::S(h.clone()),
-          Rx::A(h) => Rx::A(h.clone()),
+          Rx::A(h) => Rx::A(Box::new((**h).clone())),
         };
         let subs = rxs[i].subs.clone();
         trace.push(format!("rx{} = rx{}.clone()", rxs.len(), i));
         // What a clone made after every sender handle is gone is, the statement does not say
         // (the library hands out an already-closed handle): nothing is asserted about it.
         let dead = live_senders(&txs) == 0;
-        rxs.push(MRx { h: Some(c), unspecified: dead, closed: dead, subs, mailbox: VecDeque::new(), saw_disconnected: false });
+        rxs.push(MRx { pending: None, h: Some(c), unspecified: dead, closed: dead, subs, mailbox: VecDeque::new(), saw_disconnected: false });
       }
       // clone sender (sync handles only)
       5 => {
@@ -306,6 +408,9 @@ fn run_seq(cap: usize, steps: usize, rng: &mut Rng) -> (Vec<Finding>, Vec<String
           continue;
         }
         let i = cands[rng.below(cands.len() as u64) as usize];
+        if rxs[i].pending.take().is_some() {
+          trace.push(format!("drop pending recv of rx{} (before close)", i));
+        }
         let r = match rxs[i].h.as_ref().unwrap() {
           Rx::S(h) => h.close(),
           Rx::A(h) => h.close(),
@@ -324,6 +429,7 @@ fn run_seq(cap: usize, steps: usize, rng: &mut Rng) -> (Vec<Finding>, Vec<String
           continue;
         }
         let i = cands[rng.below(cands.len() as u64) as usize];
+        rxs[i].pending = None;
         rxs[i].h = None;
         rxs[i].closed = true;
         trace.push(format!("drop(rx{})", i));
@@ -348,15 +454,21 @@ fn run_seq(cap: usize, steps: usize, rng: &mut Rng) -> (Vec<Finding>, Vec<String
             continue;
           }
           let i = cands[rng.below(cands.len() as u64) as usize];
+          if rxs[i].pending.take().is_some() {
+            trace.push(format!("drop pending recv of rx{} (before conversion)", i));
+          }
           let h = rxs[i].h.take().unwrap();
           rxs[i].h = Some(match h {
-            Rx::S(h) => Rx::A(h.to_async()),
-            Rx::A(h) => Rx::S(h.to_sync()),
+            Rx::S(h) => Rx::A(Box::new(h.to_async())),
+            Rx::A(h) => Rx::S((*h).to_sync()),
           });
           trace.push(format!("rx{} converted", i));
         }
       }
     }
+  }
+  if f.is_empty() {
+    quiesce!();
   }
   // final: drop all senders; every open receiver drains its mailbox and then must see Disconnected
   if f.is_empty() {
@@ -365,7 +477,15 @@ fn run_seq(cap: usize, steps: usize, rng: &mut Rng) -> (Vec<Finding>, Vec<String
       t.closed = true;
     }
     trace.push("drop all senders".into());
+    // pending futures must now be woken (Disconnected or a buffered message)
+    quiesce!();
+    for r in rxs.iter_mut() {
+      r.pending = None;
+    }
     for i in 0..rxs.len() {
+      if !f.is_empty() {
+        break;
+      }
       if rxs[i].h.is_none() || rxs[i].closed {
         continue;
       }
@@ -396,7 +516,7 @@ fn run_seq(cap: usize, steps: usize, rng: &mut Rng) -> (Vec<Finding>, Vec<String
       }
     }
   }
-  let nontrivial = delivered > 0 && (omitted > 0 || rxs.len() > 1 || txs.len() > 1);
+  let nontrivial = delivered > 0 && (omitted > 0 || rxs.len() > 1 || txs.len() > 1 || pending_seen);
   (f, trace, nontrivial)
 }
 
@@ -642,7 +762,7 @@ fn run_conc(scn_seed: u64, exec: u64, rng: &mut Rng, cfg: &StuckCfg, canary: &Ca
   let mut f: Vec<Finding> = vec![];
   let mut trace: Vec<String> = vec![format!("concurrent: {} senders x {} msgs, {} receivers, mailbox {}, dynamic subscriptions: {}", n_tx, msgs, n_rx, cap, dynamic)];
   if let Some(s) = &stuck_report {
-    if s.canary_max_gap_us <= cfg.canary_limit_us && (s.nudge_released || s.model_enabled) {
+    if s.decisive(cfg) {
       let sends_blocked = evs.iter().any(|e| e.is_open() && e.form.is_send());
       f.push(Finding {
         rule: if sends_blocked { "publish-blocked".into() } else { "no-disconnected-after-senders-gone".into() },
@@ -843,8 +963,13 @@ fn report(res: &mut ShardResult, args: &Args, prop: &str, c04_rules: &[&str], ba
   for (fs, trace, meta, _sig, mode) in batch {
     for f in fs {
       let is_c04 = c04_rules.contains(&f.rule.as_str());
-      let owner = if prop == "C04" {
+      // a lost wake of a pending recv() is the async clause (C06); the disconnect clauses are shared with C04
+      let owner = if f.rule.starts_with("lost-wake") {
+        "C06"
+      } else if prop == "C04" {
         if is_c04 { "C04" } else { "C08" }
+      } else if prop == "C06" {
+        "C08"
       } else {
         "C08"
       };
